@@ -780,7 +780,7 @@ Definition enq_state (s1 : kst) (v : N) : kst :=
       (match ktop s1 with Some (Some v', _) => if v' =? v then kdone s1 else false | _ => false end)
       (ksubs s1 ++ [v]) (kinmem s1) (kout s1).
 
-Lemma store_enqueue_eq c s1 v a : admit c = true -> a <> Young -> store_enqueue c s1 v a = enq_state s1 v.
+Lemma store_enqueue_eq c s1 v a : accepts c = true -> a <> Young -> store_enqueue c s1 v a = enq_state s1 v.
 Proof. intros Ha Hy. unfold store_enqueue. rewrite Ha. destruct a; try reflexivity. contradiction Hy; reflexivity. Qed.
 
 Lemma enqueue_core s1 v :
@@ -885,7 +885,7 @@ Qed.
 Record KInv (c : hcfg) (s : kst) : Prop := mkKInv {
   kI : Inv s;
   kW : woi c = true -> forall vm l a, kmem s = Some (vm, l, a) -> forall v tsq, ktop s = Some (Some v, tsq) -> v = vm;
-  kQ : forall v tsq, ktop s = Some (Some v, tsq) -> admit c = true;
+  kQ : forall v tsq, ktop s = Some (Some v, tsq) -> accepts c = true;
   kNI : forall v l a, kmem s = Some (v, l, a) -> l <> LInMem }.
 
 Lemma kinv_init c : KInv c init_k.
@@ -948,7 +948,7 @@ Proof.
   - exact Hl.
 Qed.
 
-Lemma no_some_loads c s : KInv c s -> admit c = false -> forall i v k, ~ In (i, Some v, k) (kload s).
+Lemma no_some_loads c s : KInv c s -> accepts c = false -> forall i v k, ~ In (i, Some v, k) (kload s).
 Proof.
   intros [HI _ HQ _] Hadm i v k Hin. destruct (iP s HI _ _ _ Hin) as [[tsq Ht] _].
   rewrite (HQ _ _ Ht) in Hadm. discriminate.
@@ -961,7 +961,7 @@ Proof.
   destruct (woi c) eqn:Hwoi.
   - constructor; [eapply inv_drop_mem_top; eauto| | |]; try (cbn; intros; discriminate); auto.
   - assert (Hgo : KInv c (store_enqueue c (set_mem s None) v a)).
-    { unfold store_enqueue. destruct (admit c) eqn:Hadm.
+    { unfold store_enqueue. destruct (accepts c) eqn:Hadm.
       - destruct a.
         + constructor; [exact (inv_enq_after_drop s v l _ HI Hm)| | |]; cbn; intros; try discriminate; auto.
         + constructor; [eapply inv_drop_mem_young; eauto; discriminate| | |]; cbn; intros; try discriminate; eauto.
@@ -1055,7 +1055,7 @@ Lemma kinv_insert c s l : KInv c s -> l <> LInMem -> KInv c (do_insert c s l).
 Proof.
   intros [HI HW HQ HNI] Hl. unfold do_insert. fold (ins_state s l).
   assert (Henq : KInv c (store_enqueue c (ins_state s l) (knext s) Fresh)).
-  { unfold store_enqueue. destruct (admit c) eqn:Hadm.
+  { unfold store_enqueue. destruct (accepts c) eqn:Hadm.
     - constructor; [exact (inv_ins_enq s l HI)| | |].
       + cbn. intros _ vm l0 a0 Hm v tsq Ht. inversion Ht; subst.
         destruct (loc_eqb l LOnDisk); inversion Hm; auto.
